@@ -644,7 +644,7 @@ func (cr *chainRun) checkBranchReply(run *caseRun, reply []byte) (relayed string
 	if rest := o.TTL &^ 0x8000; rest != 0 {
 		viol("opt-ttl-altered", fmt.Sprintf("reply OPT TTL field is %#08x; want version 0, no Z bits, no extended rcode (relayed: %s)", o.TTL, relayed))
 	}
-	named := b.named()
+	named := cr.desc.namedDown(codeSet(c.Opt.Options)[8])
 	// what the relayed exchange carried
 	relOpts := map[string]int{}
 	if relayedHere {
